@@ -90,6 +90,8 @@ type EngineRunner struct {
 	curWrites      []histWrite
 	skipRanges     [][2]int // event ranges (of Close / Backup) whose interior is not a crash point
 	dt             *dtRef
+	pathStyle      int // how DirPath is spelled: 0 clean, 1 with a trailing separator, 2 alternating between the two
+	opensDone      int
 	svc            *datatype.DataTypeService
 	svcDB          *kv.DB
 	lastBatch      time.Time // when the scenario created its latest batch (see continueImage)
@@ -435,8 +437,16 @@ func (r *EngineRunner) Exec(f []string) (res string) {
 			r.dirs[r.cur] = filepath.Join(r.Root, r.cur)
 		}
 		return ""
+	case "pathstyle":
+		r.pathStyle = atoi(f[2])
+		return ""
 	case "open":
-		r.opts = parseOpts(f[2:], r.dir())
+		dp := r.dir()
+		if r.pathStyle == 1 || (r.pathStyle == 2 && r.opensDone%2 == 0) {
+			dp += string(os.PathSeparator) // the same directory, spelled differently
+		}
+		r.opensDone++
+		r.opts = parseOpts(f[2:], dp)
 		r.so.reset()
 		r.so.opKind = "other"
 		db, err := kv.Open(r.opts)
